@@ -37,7 +37,11 @@ Inductive hdr := HdrBad | HdrOk (ty : btype) (datasize : Z).
 (* zlib: reader/stream error, or the number of bytes the stream inflates to *)
 (* InflTrailing n: a complete zlib stream inflating to n bytes FOLLOWED BY extra bytes inside
    zlib_data (compress/zlib ignores them; the streaming czlib reader of the cgo build spun forever
-   on them, see v_trailing_spins) *)
+   on them, see v_trailing_spins).
+   n is the length of the WHOLE inflated stream, i.e. what an inflater without a bound would
+   produce; it is not bounded by anything in the file (deflate expands up to 1032:1, so a blob
+   below the 32 MiB limit can hold a stream of 32 GiB).  How much of it getData materialises is
+   [inflated_bytes] below. *)
 Inductive inflate := InflErr | InflOk (n : Z) | InflTrailing (n : Z).
 Inductive encoding := EncRaw | EncZlib (raw_size : Z) (z : inflate) | EncNone.
 
@@ -74,11 +78,13 @@ Record variant := Variant {
   v_neg_datasize_panics : bool; (* blobBuf[:datasize] with datasize < 0 *)
   v_first_other_is_data : bool; (* a first block that is neither OSMHeader nor OSMData is decoded as data *)
   v_rawsize_unchecked : bool;   (* raw_size is used for the allocation before any check *)
-  v_trailing_spins : bool       (* cgo build: streaming czlib reader, never returns when bytes follow
-                                   the end of the zlib stream (repaired: one-shot czlib.Decompress) *)
+  v_trailing_spins : bool;      (* cgo build: streaming czlib reader, never returns when bytes follow
+                                   the end of the zlib stream (repaired: one inflate call) *)
+  v_inflate_unbounded : bool    (* the whole stream is inflated before its length is compared with
+                                   raw_size (repaired c12edc1: at most raw_size + 1 bytes) *)
 }.
-Definition legacy : variant := Variant true true true true true.
-Definition current : variant := Variant false false false false false.
+Definition legacy : variant := Variant true true true true true true.
+Definition current : variant := Variant false false false false false false.
 
 (* ---- io.ReadFull on a stream with [avail] bytes left ---- *)
 Inductive rerr := REOF | RUnexpectedEOF.
@@ -164,6 +170,19 @@ Definition get_data (v : variant) (cap0 : Z) (e : encoding) : gres :=
            end
   end.
 
+(* the number of bytes getData lets the inflater produce for one blob (memory, and time, of the
+   call): one byte more than announced is enough to notice a longer stream *)
+Definition inflate_len (z : inflate) : Z :=
+  match z with InflErr => 0 | InflOk n | InflTrailing n => n end.
+Definition inflated_bytes (v : variant) (e : encoding) : Z :=
+  match e with
+  | EncZlib rs z =>
+      if v_inflate_unbounded v then inflate_len z
+      else if (rs <? 0) || (rs >=? maxBlobSize) then 0
+      else Z.min (inflate_len z) (rs + 1)
+  | _ => 0
+  end.
+
 (* ---- what becomes of one block ---- *)
 Inductive step (O : Type) := SObjs (objs : list O) | SErr | SPanic | SOut | SHang.
 Arguments SErr {O}.
@@ -171,7 +190,10 @@ Arguments SPanic {O}.
 Arguments SOut {O}.
 Arguments SHang {O}.
 
-(* dataDecoder.Decode *)
+(* dataDecoder.Decode.  The code hands getData the worker's reused buffer dec.data (capacity > 0
+   after its first zlib block); the model always passes capacity 0, the fresh-decoder case.  For
+   [current] this loses nothing ([get_data_no_panic] is for every capacity: the size check comes
+   first); the [legacy] raw_size witness is therefore that of a decoder's FIRST zlib block. *)
 Definition decode_data {O} (v : variant) (b : blob O) : step O :=
   match get_data v 0 (b_enc b) with
   | GErr => SErr
@@ -289,7 +311,10 @@ Fixpoint consume {O} (c : Z) (ds : list (Z * list O)) : list (O * Z * Z) :=
 
 Definition trace {O} (r : result O) : list (O * Z * Z) := consume 0 (deliveries r).
 
-(* FullyScannedBytes after [k] objects were returned (0 before the first) *)
+(* FullyScannedBytes after [k] objects were returned (0 before the first).  Total functions:
+   for k beyond the number of objects the value is -1, which is no offset ([seek (-1) _ = None]);
+   the theorems that use them bound k (C09_reported_offsets puts the option on the spec side,
+   C09_stop_and_resume_loses_nothing could not meet its existential with the default). *)
 Definition fsb_after {O} (r : result O) (k : nat) : Z :=
   match k with
   | O => 0
